@@ -349,7 +349,10 @@ def rule_PC5(ctx, rep):
     rc = [c for c in calls_named(rcv.node, 'receive')]
     if len(sc) != 1 or len(rc) != 1:
         raise AnalysisError('PC5: _send_message/_receive_message no longer contain exactly one protocol.send/receive call')
-    ls, lr = sc[0].args[0], rc[0].args[0]
+    from . import sem as _sem0
+    # the label expressions, through temporaries (`pc = self._program_counter[0]`)
+    ls = _sem0.expand(snd, sc[0].args[0], sc[0], parents(snd.node))
+    lr = _sem0.expand(rcv, rc[0].args[0], rc[0], parents(rcv.node))
     canon = 'self._program_counter[0]'
     if norm(ls) == norm(lr):
         rep.ok('PC5', snd, sc[0], f'send and receive use the same label expression {norm(ls)}')
